@@ -458,3 +458,106 @@ def inline_helpers_in_function(fn, depth: int = 3):
     out = T(depth).visit(root)
     _ast.fix_missing_locations(out)
     return out
+
+
+def splice_generator_helpers(fn):
+    """FuncInfo whose body has every statement `yield from self.<h>(args)` replaced by the body of the same-class generator
+    method <h> (parameters substituted by the arguments, the helper's own locals renamed apart) - so a __rich_console__
+    split into private generator helpers is analysed as the single function it is equivalent to.  Only helpers without
+    `return`, with plain positional/keyword parameters and simple arguments (names, attributes, constants) are spliced;
+    anything else is left as it is.  Returns `fn` itself when nothing was spliced."""
+    import ast as _ast
+    import copy
+    if fn.cls is None:
+        return fn
+    counter = [0]
+
+    def simple(a):
+        return isinstance(a, (_ast.Name, _ast.Constant)) or (isinstance(a, _ast.Attribute) and simple(a.value))
+
+    def unguard(stmts):
+        """`if c: A; return` followed by B  ==>  `if c: A else: B` (top level only); None if another return remains"""
+        out = []
+        for i, st in enumerate(stmts):
+            if isinstance(st, _ast.If) and not st.orelse and st.body and isinstance(st.body[-1], _ast.Return) and st.body[-1].value is None:
+                rest = unguard(stmts[i + 1:])
+                if rest is None:
+                    return None
+                st.body = st.body[:-1] or [_ast.Pass()]
+                st.orelse = rest
+                out.append(st)
+                break
+            if isinstance(st, _ast.Return) and st.value is None and i == len(stmts) - 1:
+                break
+            out.append(st)
+        if any(isinstance(x, _ast.Return) for st in out for x in _ast.walk(st)):
+            return None
+        return out
+
+    def expand(stmts, depth):
+        out = []
+        changed = False
+        for st in stmts:
+            call = st.value.value if isinstance(st, _ast.Expr) and isinstance(st.value, _ast.YieldFrom) and isinstance(st.value.value, _ast.Call) else None
+            h = None
+            if call is not None and isinstance(call.func, _ast.Attribute) and isinstance(call.func.value, _ast.Name) and call.func.value.id == "self" and depth < 3:
+                h = fn.cls.method(call.func.attr)
+            hbody = None
+            if h is not None and h is not fn and any(isinstance(x, (_ast.Yield, _ast.YieldFrom)) for x in _ast.walk(h.node)):
+                hbody = unguard([b for b in copy.deepcopy(h.node.body) if not (isinstance(b, _ast.Expr) and isinstance(b.value, _ast.Constant))])
+            if hbody is not None:
+                a = h.node.args
+                static = any(isinstance(d, _ast.Name) and d.id == "staticmethod" for d in h.node.decorator_list)
+                params = [p.arg for p in a.args][0 if static else 1:]
+                ok = not (a.vararg or a.kwarg or a.posonlyargs or a.defaults or a.kw_defaults and any(d is not None for d in a.kw_defaults)) and len(call.args) <= len(params) and all(simple(x) for x in call.args) and all(k.arg and simple(k.value) for k in call.keywords)
+                binding = dict(zip(params, call.args))
+                for k in call.keywords:
+                    binding[k.arg] = k.value
+                allp = params + [p.arg for p in a.kwonlyargs]
+                if ok and set(binding) == set(allp):
+                    counter[0] += 1
+                    suffix = f"__h{counter[0]}"
+                    stored = {x.id for x in _ast.walk(h.node) if isinstance(x, _ast.Name) and isinstance(x.ctx, _ast.Store)} - set(allp)
+
+                    class R(_ast.NodeTransformer):
+                        def visit_Name(self, node):
+                            if node.id in binding and isinstance(node.ctx, _ast.Load):
+                                return _ast.copy_location(copy.deepcopy(binding[node.id]), node)
+                            if node.id in stored:
+                                return _ast.copy_location(_ast.Name(id=node.id + suffix, ctx=node.ctx), node)
+                            return node
+                    body = hbody
+                    if not any(isinstance(x, _ast.Name) and isinstance(x.ctx, _ast.Store) and x.id in binding for b in body for x in _ast.walk(b)):
+                        body = [R().visit(b) for b in body]
+                        body, _c = expand(body, depth + 1)
+                        for b in body:
+                            for x in _ast.walk(b):
+                                if hasattr(x, "lineno"):
+                                    x.lineno = st.lineno
+                        out.extend(body)
+                        changed = True
+                        continue
+            # recurse into compound statements
+            for field in ("body", "orelse", "finalbody"):
+                sub = getattr(st, field, None)
+                if isinstance(sub, list) and sub and isinstance(sub[0], _ast.stmt):
+                    new, c = expand(sub, depth)
+                    if c:
+                        setattr(st, field, new)
+                        changed = True
+            out.append(st)
+        return out, changed
+
+    node = copy.deepcopy(fn.node)
+    new_body, changed = expand(node.body, 0)
+    if not changed:
+        return fn
+    node.body = new_body
+    _ast.fix_missing_locations(node)
+    f2 = copy.copy(fn)
+    f2.node = node
+    for parent in _ast.walk(node):
+        for child in _ast.iter_child_nodes(parent):
+            fn.module.parent_of[child] = parent
+    fn.module.parent_of[node] = fn.module.parent_of.get(fn.node)
+    return f2
